@@ -573,3 +573,184 @@ def _same_value_opt(self, got, exp):
 
 ProgramVerifier.verify_deserialize = _verify_deserialize
 ProgramVerifier.same_value_opt = _same_value_opt
+
+
+# ================================================================ C01 for fixed-size classes (proved)
+def _encb(v, j):
+    """j-th byte of the EO encoding of v (contracts.spec.ENCB)"""
+    if j == 0:
+        return v % 253 + 1
+    lim = 253 ** j
+    return z3.If(v < lim, I(0xFE), (v / lim) % 253 + 1)
+
+
+def _rt_fixed_plan(self, decl, depth=0):
+    """list of leaf slots of a fixed-size class (ints / bools / enums, nested fixed structs, literal-length
+    arrays of those), or None when the class is outside this fragment"""
+    if depth > 4:
+        return None
+    slots = []
+    for ins in decl.body:
+        if ins.tag == "field" and ins.name is not None and ins.value is None and not ins.optional:
+            t = X.resolve_type(self.spec, ins.type, ins.length if is_str_type(ins.type) else None)
+            if t.kind in ("int", "bool", "enum"):
+                slots.append(("leaf", ins.name, t))
+            elif t.kind == "struct":
+                sub = _rt_fixed_plan(self, t.struct, depth + 1)
+                if sub is None:
+                    return None
+                slots.append(("struct", ins.name, t, sub))
+            else:
+                return None
+        elif ins.tag == "field" and ins.value is not None:
+            t = X.resolve_type(self.spec, ins.type, ins.length if is_str_type(ins.type) else None)
+            if t.kind not in ("int", "bool"):
+                return None
+            slots.append(("lit", ins.name, t, ins.value))
+        elif ins.tag == "array" and ins.length is not None and ins.length.isdigit() and not ins.optional and not ins.delimited:
+            t = X.resolve_type(self.spec, ins.type)
+            n = int(ins.length)
+            if n > 6:
+                return None
+            if t.kind in ("int", "enum"):
+                slots.append(("array", ins.name, t, n, None))
+            elif t.kind == "struct":
+                sub = _rt_fixed_plan(self, t.struct, depth + 1)
+                if sub is None:
+                    return None
+                slots.append(("array", ins.name, t, n, sub))
+            else:
+                return None
+        else:
+            return None
+    return slots
+
+
+def _verify_roundtrip_fixed(self, decl):
+    """RT_T for a fixed-size class: data := the interpreted WIRE_T(obj) of a symbolic VALID object
+    (C02 proves the emitted serialize produces exactly these bytes); the emitted deserialize (and,
+    inlined, those of nested classes) is executed over a concrete-structured non-chunked reader whose
+    operations are the C05 contracts; obligations: every field equals the object's, every byte is
+    consumed, byte_size is the number of bytes."""
+    plan = _rt_fixed_plan(self, decl)
+    if plan is None:
+        return None
+    ci = self.class_info(decl)
+    fi = ci.methods["deserialize"]
+    ex = self.new_exec(decl)
+    ex.inject_failures = False
+    ex.rt_mode = True
+    ex.current_fi = fi
+    name = decl.name
+
+    def hook(fr, node, ordn):
+        return {"unroll": 6}
+    ex.loop_hook = hook
+
+    def build(plan, base):
+        """(bytes list, expected model) for one object"""
+        bs = []
+        model = {}
+        for slot in plan:
+            kind = slot[0]
+            if kind == "leaf":
+                _, nm, t = slot
+                if t.kind == "bool":
+                    b = ex.fresh(base + nm, BOOL)
+                    v = z3.If(b, I(1), I(0))
+                    model[nm] = b
+                else:
+                    v = ex.fresh(base + nm)
+                    ex.fact(z3.And(v >= 0, v < t.limit))        # VALID_T: in range
+                    model[nm] = v
+                bs += [v] if t.under == "byte" else [_encb(v, j) for j in range(t.width)]
+            elif kind == "lit":
+                _, nm, t, text = slot
+                v = I(int(text)) if t.kind == "int" else I(1 if text == "true" else 0)
+                bs += [v] if t.under == "byte" else [_encb(v, j) for j in range(t.width)]
+                if nm is not None:
+                    model[nm] = v if t.kind == "int" else z3.BoolVal(text == "true")
+            elif kind == "struct":
+                _, nm, t, sub = slot
+                b2, m2 = build(sub, base + nm + ".")
+                bs += b2
+                model[nm] = m2
+            elif kind == "array":
+                _, nm, t, n, sub = slot
+                items = []
+                for k in range(n):
+                    if sub is None:
+                        v = ex.fresh(f"{base}{nm}[{k}]")
+                        ex.fact(z3.And(v >= 0, v < t.limit))
+                        bs += [v] if t.under == "byte" else [_encb(v, j) for j in range(t.width)]
+                        items.append(v)
+                    else:
+                        b2, m2 = build(sub, f"{base}{nm}[{k}].")
+                        bs += b2
+                        items.append(m2)
+                model[nm] = items
+        return bs, model
+
+    def compare(got, want, path):
+        if isinstance(want, dict):
+            o = ex.obj(got)
+            if o is None:
+                ex.oblige("roundtrip", z3.BoolVal(False), path, {"why": "nested object missing", "property": "C01"})
+                return
+            for k, w in want.items():
+                compare(o.fields.get("_" + k), w, path + "." + k)
+            return
+        if isinstance(want, list):
+            z = ex.zseq(got) if got is not None else None
+            if z is None:
+                ex.oblige("roundtrip", z3.BoolVal(False), path, {"why": "array missing", "property": "C01"})
+                return
+            ex.oblige("roundtrip", z3.Length(z.t) == len(want), path + ".len",
+                      {"why": "array length differs after the round trip", "property": "C01"})
+            ex.assume(z3.Length(z.t) == len(want))
+            for k, w in enumerate(want):
+                el = z.t[k]
+                if isinstance(w, dict):
+                    raise Unsupported("array of structs comparison needs object elements")
+                ex.oblige("roundtrip", el == w, f"{path}[{k}]", {"why": "array element differs after the round trip", "property": "C01"})
+            return
+        if got is None:
+            ex.oblige("roundtrip", z3.BoolVal(False), path, {"why": "field missing", "property": "C01"})
+            return
+        g = got.val if isinstance(got, MaybeV) else got
+        if z3.is_bool(want) and is_int(g):
+            g = g != 0
+        ex.oblige("roundtrip", g == want, path, {"why": f"field {path} differs after the round trip", "property": "C01"})
+
+    def run():
+        ex.fname = f"{name}.roundtrip"
+        bs, model = build(plan, "")
+        data = ex.lit_terms([simp(b) for b in bs])
+        rci = repo.lookup(READER_Q)
+        r = ex.alloc(ObjV(rci, {"cdata": ZSeq(data, "int"), "cpos": I(0), "cmode": z3.BoolVal(False)}))
+        fr = Frame(fi, fi.module, {"reader": r})
+        ex.frames = []
+        try:
+            try:
+                ex.exec_block(fi.body(), fr)
+                ret = NONE
+            except ReturnSig as rs:
+                ret = rs.value
+        except PyExc as e:
+            ex.oblige("roundtrip", z3.BoolVal(False), f"raises-{e.cls}", {"why": f"{e.cls} while reading back a valid object",
+                                                                        "property": "C01"})
+            return
+        o = ex.obj(ret)
+        compare(ret, model, name)
+        ro = ex.obj(r)
+        ex.oblige("roundtrip", ro.fields["cpos"] == len(bs), "consumed", {"why": "not exactly the written bytes consumed", "property": "C01"})
+        ex.oblige("roundtrip", o.fields.get("_byte_size") == len(bs) if o and is_int(o.fields.get("_byte_size")) else z3.BoolVal(False),
+                  "byte_size", {"why": "byte_size differs from the number of bytes written", "property": "C01"})
+    try:
+        ex.explore(run)
+    except Unsupported:
+        return None
+    return ex
+
+
+ProgramVerifier.verify_roundtrip = _verify_roundtrip_fixed
